@@ -367,6 +367,148 @@ Proof.
     destruct b; exact Goal.
 Qed.
 
+(* ---------- replace_constant_values ---------- *)
+Lemma const_defs_facts : forall (l : list (name * pval)),
+  existsb (fun '(_, v) => match v with None => true | _ => false end) l = false ->
+  let d := flat_map (fun '(x, v) => match v with Some e => [(x, e)] | None => [] end) l in
+  map fst d = map fst l /\ (forall y v, In (y, v) d -> In (y, Some v) l).
+Proof.
+  induction l as [| [y0 v0] l IH]; simpl.
+  - intros _. split; [reflexivity | intros y v []].
+  - destruct v0 as [e |]; simpl; try discriminate. intro H. destruct (IH H) as [I1 I2]. split.
+    + now rewrite I1.
+    + intros y v [Hyv | Hyv]; [inversion Hyv; now left | right; now apply I2].
+Qed.
+
+Lemma all_const_no_occ (d : sub) :
+  existsb (fun '(_, e) => negb (is_const e)) d = false ->
+  forall y v x, In (y, v) d -> occurs x v = false.
+Proof.
+  intros H y v x Hin. destruct (occurs x v) eqn:O; auto.
+  assert (K : existsb (fun '(_, e) => negb (is_const e)) d = true).
+  { apply existsb_exists. exists (y, v). split; auto. destruct v; simpl in *; try discriminate; auto. }
+  congruence.
+Qed.
+
+Theorem closed_replace_const_values tm m :
+  closed tm m -> vals_closed tm m -> acyclic (const_defs m) ->
+  failed (replace_const_values m) = false -> warned m = false ->
+  warned (replace_const_values m) = false ->
+  closed tm (replace_const_values m).
+Proof.
+  unfold replace_const_values, const_defs. intros Hc Hv Hac.
+  set (d := flat_map (fun '(x, v) => match v with Some e => [(x, e)] | None => [] end) (consts m)) in *.
+  destruct (existsb (fun '(_, v) => match v with None => true | _ => false end) (consts m)) eqn:Ex.
+  { destruct (resolve_defs d); simpl; congruence. }
+  destruct (const_defs_facts (consts m) Ex) as [D1 D2]. fold d in D1, D2.
+  (* the substitution: its domain is the constants, its values are free of them and closed *)
+  assert (S : forall s conv, resolve_defs d = (s, conv) -> conv = true ->
+              map fst s = map fst (consts m)
+              /\ (forall y v x, lookup y s = Some v -> occurs x v = true ->
+                               lookup x s = None /\ (In x (decl m) \/ x = tm))).
+  { intros s conv. unfold resolve_defs.
+    destruct (existsb (fun '(_, e) => negb (is_const e)) d) eqn:Nc.
+    - pose proof (loop_closed_form d Hac) as CF. simpl in CF.
+      pose proof (subst_fix_length SUBSTITUTE_LOOP_LIMIT (map fst d) (map snd d)) as Len.
+      destruct (subst_fix SUBSTITUTE_LOOP_LIMIT (map fst d) (map snd d)) as [vals cv].
+      simpl in *. intro H. inversion H. subst s conv. intro Hcv. subst cv.
+      destruct (CF eq_refl) as [Free Orig]. split.
+      + rewrite map_fst_combine_len; [exact D1 | now rewrite Len, !map_length].
+      + intros y v x L Ho. split.
+        * destruct (lookup x (combine (map fst d) vals)) as [w |] eqn:Lx; auto.
+          rewrite (Free y v x w (lookup_In _ _ _ L) Lx) in Ho. discriminate.
+        * destruct (Orig x (ex_intro _ y (ex_intro _ v (conj (lookup_In _ _ _ L) Ho)))) as [y0 [v0 [Hd0 Ho0]]].
+          apply (Hv y0 v0 x); auto. apply in_or_app. right. now apply D2.
+    - intro H. inversion H. subst s conv. intros _. split; [exact D1 |].
+      intros y v x L Ho. rewrite (all_const_no_occ d Nc y v x (lookup_In _ _ _ L)) in Ho. discriminate. }
+  destruct (resolve_defs d) as [s conv] eqn:R. simpl.
+  intros _ Hw0 Hw. rewrite Hw0 in Hw. simpl in Hw. apply negb_false_iff in Hw.
+  destruct (S s conv eq_refl Hw) as [Dom Vals].
+  assert (Keep : forall x, (In x (decl m) \/ x = tm) -> lookup x s = None ->
+                 In x (algs m ++ states m ++ ders m ++ inputs m ++ map fst (subst_vals s (params m)) ++ []) \/ x = tm).
+  { intros x [Hd | Ht] L; [| now right]. left. apply lookup_none_notin in L. rewrite Dom in L.
+    unfold decl, others in Hd. rewrite !in_app_iff in Hd. rewrite map_fst_subst_vals, !in_app_iff. tauto. }
+  intros e x Hin Ho. unfold decl, others. simpl in *.
+  assert (Hsub : exists e0, In e0 (eqs m ++ ieqs m) /\ e = subst s e0).
+  { apply in_app_or in Hin. destruct Hin as [Hin | Hin]; apply in_map_iff in Hin;
+      destruct Hin as [e0 [<- Hin]]; exists e0; split; auto; apply in_or_app; [now left | now right]. }
+  destruct Hsub as [e0 [Hin0 ->]].
+  apply subst_occ in Ho. destruct Ho as [[Ho L] | [y [v [_ [L Hv']]]]].
+  - apply Keep; auto. eapply Hc; eauto.
+  - destruct (Vals y v x L Hv') as [Lx Hd]. now apply Keep.
+Qed.
+
+(* ---------- detect_aliases ---------- *)
+Lemma da_loop_kept ad al dl dne pc : forall es R R' kept,
+  da_loop ad al dl dne pc R es = (R', kept) -> incl kept es.
+Proof.
+  induction es as [| e es IH]; intros R R' kept; simpl.
+  - intro H. inversion H. intros z [].
+  - destruct (detect_alias pc e) as [[[d0 d1] neg] |].
+    + destruct (make_alias ad al dl dne R d0 d1 neg) as [R1 |].
+      * intro H. intros z Hz. right. eapply IH; eauto.
+      * destruct (da_loop ad al dl dne pc R es) as [R2 k2] eqn:E. intro H. inversion H. subst.
+        intros z [-> | Hz]; [now left | right; eapply IH; eauto].
+    + destruct (da_loop ad al dl dne pc R es) as [R2 k2] eqn:E. intro H. inversion H. subst.
+      intros z [-> | Hz]; [now left | right; eapply IH; eauto].
+Qed.
+
+Lemma sgn_sym_occ x n c : occurs x (sgn n (Sym c)) = true -> x = c.
+Proof. destruct n; simpl; intro H; now apply Pos.eqb_eq in H. Qed.
+
+Theorem closed_detect_aliases tm ad m :
+  closed tm m -> relinv (dne_of m) (arel m) -> da_decl (pc_of m) (algs m) (dne_of m) (eqs m) ->
+  da_nored ad (algs m) (ders m) (dne_of m) (pc_of m) (arel m) (eqs m) = true ->
+  failed (detect_aliases ad m) = false ->
+  closed tm (detect_aliases ad m).
+Proof.
+  unfold dne_of, pc_of, detect_aliases. intros Hc Inv Hd Hn.
+  destruct (da_loop ad (algs m) (ders m)
+              (ders m ++ states m ++ inputs m ++ map fst (params m) ++ map fst (consts m))
+              (map fst (params m) ++ map fst (consts m)) (arel m) (eqs m)) as [R kept] eqn:E.
+  destruct (da_loop_struct _ _ _ _ _ _ _ _ _ Inv Hd E Hn) as [news [P [L Inv']]].
+  pose proof (da_loop_kept _ _ _ _ _ _ _ _ _ E) as Kin.
+  match goal with |- context [if ?c then _ else _] => destruct c eqn:B end.
+  { simpl. congruence. }
+  intros _. cbv zeta.
+  set (p := fun a => negb (old_member (arel m) a)).
+  match goal with |- context [map (subst ?s0) kept] => set (s := s0) end.
+  assert (G : map fst s = filter p (mnames R)).
+  { unfold s. apply (gone_eq p (fun cl n => sgn n (Sym (fst cl)))). }
+  destruct Inv' as [I1 [I2 M1]].
+  (* a declared symbol that is not substituted stays declared *)
+  assert (Keep : forall x, In x (decl m) -> ~ In x (map fst s) ->
+    In x (filter (fun x0 => negb (mem x0 (map fst s))) (algs m) ++
+          filter (fun x0 => negb (mem x0 (map fst s))) (states m) ++
+          filter (fun x0 => negb (mem x0 (map fst s))) (ders m) ++
+          filter (fun x0 => negb (mem x0 (map fst s))) (inputs m) ++
+          map fst (filter (fun '(x0, _) => negb (mem x0 (map fst s))) (params m)) ++ map fst (consts m))).
+  { intros x Hx Hn'. assert (Hm : negb (mem x (map fst s)) = true).
+    { apply negb_true_iff. destruct (mem x (map fst s)) eqn:M; auto. apply mem_In in M. contradiction. }
+    unfold decl, others in Hx. rewrite !in_app_iff in Hx. rewrite !in_app_iff, !filter_In.
+    destruct Hx as [Hx | [Hx | [Hx | [Hx | [Hx | Hx]]]]]; try tauto.
+    right. right. right. right. left. apply in_map_iff in Hx. destruct Hx as [[y v] [Ey Hy]]. simpl in Ey. subst y.
+    apply in_map_iff. exists (x, v). split; auto. apply filter_In. split; auto. }
+  intros e x Hin Ho. unfold decl, others. simpl in Hin |- *.
+  assert (Hsub : exists e0, In e0 (eqs m ++ ieqs m) /\ e = subst s e0).
+  { apply in_app_or in Hin. destruct Hin as [Hin | Hin]; apply in_map_iff in Hin;
+      destruct Hin as [e0 [<- Hin]]; exists e0; split; auto; apply in_or_app;
+      [left; now apply Kin | now right]. }
+  destruct Hsub as [e0 [Hin0 ->]].
+  apply subst_occ in Ho. destruct Ho as [[Ho Lx] | [y [v [_ [Ly Hv]]]]].
+  - destruct (Hc e0 x Hin0 Ho) as [Hdx | Ht]; [| now right]. left.
+    apply Keep; auto. now apply lookup_none_notin.
+  - left. apply lookup_In in Ly. unfold s in Ly. apply in_flat_map in Ly. destruct Ly as [[c ms] [Hcl Ly]].
+    apply in_map_iff in Ly. destruct Ly as [[a n] [Ea Ha]]. inversion Ea. subst y v. clear Ea.
+    simpl in Hv. apply sgn_sym_occ in Hv. subst x.
+    pose proof (existsb_false_in _ _ (c, ms) B Hcl) as Bc. simpl in Bc.
+    apply orb_false_iff in Bc. destruct Bc as [Bc _]. apply negb_false_iff in Bc. apply mem_In in Bc.
+    apply Keep.
+    + unfold decl, others. rewrite !in_app_iff in *. tauto.
+    + rewrite G. intro K. apply filter_In in K. destruct K as [K _].
+      apply (I2 c); auto. unfold cnames. apply in_map_iff. exists (c, ms). auto.
+Qed.
+
 (* ---------- composition (partial) ---------- *)
 Definition pass_closed (tm : name) (p : pass) : Prop :=
   let '(_, f, H) := p in
@@ -401,14 +543,17 @@ Definition H_cl_elim (o : options) (m : model) : Prop :=
 Definition H_cl_exprs (tm : name) (b : bool) (m : model) : Prop :=
   vals_closed tm m /\ acyclic (expr_defs b m) /\ warned m = false /\ warned (replace_exprs b m) = false.
 
+Definition H_cl_rcv (tm : name) (m : model) : Prop :=
+  vals_closed tm m /\ acyclic (const_defs m) /\ warned m = false /\ warned (replace_const_values m) = false.
+
 Definition passes_cl (tm : name) (o : options) : list pass :=
   [ (o_rpe o, replace_exprs true, H_cl_exprs tm true);
     (o_rce o, replace_exprs false, H_cl_exprs tm false);
     (o_eca o, elim_const_assignments, fun _ => True);          (* proved *)
     (o_rpv o, replace_param_values, fun _ => True);            (* proved *)
-    (o_rcv o, replace_const_values, H_cl_assumed tm replace_const_values);
+    (o_rcv o, replace_const_values, H_cl_rcv tm);                (* proved from the carve-out *)
     (elim_on o, elim_f o, H_cl_elim o);
-    (o_da o, detect_aliases (o_allow_der o), H_cl_assumed tm (detect_aliases (o_allow_der o))) ].
+    (o_da o, detect_aliases (o_allow_der o), H_da15 o) ].      (* proved from the alias invariant *)
 
 Lemma simplify_once_run_cl tm o m : simplify_once o m = run (passes_cl tm o) m.
 Proof. unfold simplify_once, passes_cl, run, elim_on, elim_f. destruct (o_elim o); reflexivity. Qed.
@@ -422,8 +567,9 @@ Proof.
   apply Forall_cons; [intros m0 H0 Hc _ _; apply closed_replace_exprs; [exact Hc | apply H0 ..] |].
   apply Forall_cons; [intros m0 _ Hc _ _; now apply closed_elim_const_assignments |].
   apply Forall_cons; [intros m0 _ Hc _ _; now apply closed_replace_param_values |].
-  apply Forall_cons; [intros m0 H0 _ _ _; exact H0 |].
-  apply Forall_cons; [| apply Forall_cons; [intros m0 H0 _ _ _; exact H0 | apply Forall_nil]].
+  apply Forall_cons; [intros m0 H0 Hc _ Hf; apply closed_replace_const_values; [exact Hc | apply H0 | apply H0 | exact Hf | apply H0 | apply H0] |].
+  apply Forall_cons; [| apply Forall_cons; [| apply Forall_nil];
+    intros m0 H0 Hc _ Hf; unfold H_da15 in H0; apply closed_detect_aliases; [exact Hc | apply H0 | apply H0 | apply H0 | exact Hf]].
   intros m0 H0 Hc Hf Hf'. unfold elim_f, H_cl_elim in *. destruct (o_elim o) as [ns |]; [| exact Hc].
   destruct H0 as [Hn [Hac [Hw Hw']]]. rewrite Hn in *.
   destruct (o_expand_mx o); [| simpl in Hf'; discriminate].
